@@ -525,6 +525,11 @@ func (app *App) stateManager() appState {
 
 	// perform failover if needed
 
+	if clusterStateDcs[master] == nil {
+		// the recorded master is not a registered host (any more): there is no state to judge it by
+		app.logger.Error().Msgf("master %s is not found among cluster hosts", master)
+		return stateManager
+	}
 	if !clusterStateDcs[master].PingOk || clusterStateDcs[master].IsFileSystemReadonly {
 		app.logger.Error().Msgf("MASTER FAILURE")
 		if app.t.Get(NodeFailedAt, master).IsZero() {
